@@ -282,7 +282,9 @@ def run(chk, repo, tier):
         shape_ok = ob.get('shape') in shape_vals
         desc = f'phasor #{k}'
         has_mask = isinstance(data, Poly) and has_factor(data, is_mask_atom)
-        chk.ob('C03-f', 'D-factor', f.key, f'mask is a factor of the phasor [{_variant(data, amp_a, opd_a)}]', has_mask,
+        from .common import opaque_element
+        opaque = opaque_element(data, off, tilt)
+        chk.ob('C03-f', 'D-factor', f.key, f'mask is a factor of the phasor [{_variant(data, amp_a, opd_a)}]', has_mask or (None if opaque else False),
                f'phasor = {fmt(data)}' + ('' if has_mask else ': samples outside the mask are not zeroed'),
                f.loc(e.node))
         bad = []
@@ -311,11 +313,11 @@ def run(chk, repo, tier):
             if a in amp_a | opd_a and a not in inner and a not in scalar_ok:
                 bad.append(f'{fmt(Poly.atom(a))} is used whole although the segment works on the slice {fmt(s)}')
         chk.ob('C03-d', 'D-index', f.key, f'amplitude, mask and OPD use the segment slice [{_variant(data, amp_a, opd_a)}]',
-               not bad and n is not None and shape_ok, '; '.join(bad) or f'slice {fmt(s)}', f.loc(e.node))
+               (not bad and n is not None and shape_ok) or (None if opaque else False), '; '.join(bad) or f'slice {fmt(s)}', f.loc(e.node))
         ta = tilt.single_atom() if isinstance(tilt, Poly) else None
         t_ok = ta is not None and ta[0] == 'idx' and ta[1] in tilt_a and isinstance(ta[2], Slice) and ta[2].lo == n \
             and ta[2].step in size_vals or (isinstance(tilt, Tup) and len(tilt) == 0)
-        chk.ob('C03-d', 'D-index', f.key, f'tilt slot of the same segment [{_variant(data, amp_a, opd_a)}]', bool(t_ok),
+        chk.ob('C03-d', 'D-index', f.key, f'tilt slot of the same segment [{_variant(data, amp_a, opd_a)}]', bool(t_ok) or (None if opaque else False),
                f'tilt = {fmt(tilt)}', f.loc(e.node))
 
     # ---------------------------------------------------------------- C03-e
